@@ -19,7 +19,8 @@ import (
 )
 
 type c05Node struct {
-	name     string // raw qualified name
+	raw      string // qualified name exactly as written (for the nesting check)
+	name     string // qualified name, svg: prefix normalised away
 	attrs    [][2]string
 	children []*c05Node
 	text     string // for text nodes (name == "")
@@ -50,7 +51,7 @@ func c05ParseXML(s string) (*c05Node, error) {
 		top := stack[len(stack)-1]
 		switch v := t.(type) {
 		case xml.StartElement:
-			n := &c05Node{name: c05QName(v.Name)}
+			n := &c05Node{name: c05QName(v.Name), raw: v.Name.Space + ":" + v.Name.Local}
 			for _, a := range v.Attr {
 				if a.Name.Space == "xmlns" {
 					continue // namespace declarations of prefixes are compared through the names that use them
@@ -60,7 +61,7 @@ func c05ParseXML(s string) (*c05Node, error) {
 			top.children = append(top.children, n)
 			stack = append(stack, n)
 		case xml.EndElement:
-			if len(stack) == 1 || top.name != c05QName(v.Name) {
+			if len(stack) == 1 || top.raw != v.Name.Space+":"+v.Name.Local {
 				return nil, fmt.Errorf("end tag </%s> does not match <%s>", c05QName(v.Name), top.name)
 			}
 			stack = stack[:len(stack)-1]
